@@ -1,59 +1,53 @@
 /-
   C12 — tree time evolution (partial).  The algebraic skeleton is shared with C09 (a Runge–Kutta
   step is a polynomial in the generator, for any module — tree states included) and C11 (state-sum
-  amplitudes).  Proved here: the traversal bookkeeping of the two-site projector-splitting sweep
-  `_tdvp_ps2_recursion_forward`: for EVERY rooted tree, the forward half sweep performs exactly
-  one two-site step on every edge (child–parent pair) and, on every node, one backward one-site
-  step per child — except the single step the code skips on the root after its last child.
+  amplitudes).  Proved here, for EVERY rooted tree with ordered children (models: `Model/TreeSweep.lean`):
+
+  * two-site sweep `_tdvp_ps2_recursion_forward/backward`: exactly one two-site step per edge (`two_count`);
+    the backward half sweep is the mirror image of the forward half sweep (`bwd_eq_reverse_fwd`);
+  * one-site sweep `_tdvp_ps_forward/backward`: one one-site step per node and one zero-site step per edge in
+    each half sweep (`ps1F_counts`); backward = reverse forward (`ps1B_eq_reverse_ps1F`);
+  * hence one full step is a symmetric composition of the local flows: with all local times negated it is the
+    inverse of itself (`ps1_step_time_reversible`, `ps2_step_time_reversible`) — the structural reason for
+    second order; a sweep that visits the children in the same order in both halves (defect D29 of the pinned
+    tree) is not of this form.
+
+  Tie: `harness/c12.py` records the sequence of local propagations (function, node, sign of the time step) of the
+  REAL sweeps on random trees and compares it with these models event by event (driver `Driver/C12.lean`).
 -/
 import Mathlib.Data.List.Basic
+import Mathlib.Algebra.BigOperators.Group.List.Basic
 import Mathlib.Tactic.Ring
 import Mathlib.Tactic.Linarith
+import RenoVerif.Model.TreeSweep
 
 namespace RenoVerif.TreeSweep
 
-inductive T
-  | node (id : Nat) (cs : List T)
-
-inductive Ev
-  | two (child : Nat)      -- evolve_2site(child) : forward step on the edge child–parent
-  | one (node : Nat)       -- evolve_1site(node)  : backward step
-deriving DecidableEq, Repr
-
-def T.id : T → Nat | .node i _ => i
-def T.kids : T → List T | .node _ cs => cs
-
-mutual
-  /-- `_tdvp_ps2_recursion_forward(snode)`; `root` tells whether `snode is ttns.root` -/
-  def fwd (root : Bool) : T → List Ev
-    | .node v cs => fwdL root v cs
-  /-- the `for ichild, child in enumerate(snode.children)` loop, on the remaining children -/
-  def fwdL (root : Bool) (v : Nat) : List T → List Ev
-    | [] => []
-    | c :: rest =>
-      (match c with
-        | .node _ [] => []
-        | .node _ (_ :: _) => fwd false c) ++
-      [Ev.two c.id] ++
-      (if root && rest.isEmpty then [] else [Ev.one v]) ++
-      fwdL root v rest
-end
-
-mutual
-  def edges : T → Nat
-    | .node _ cs => edgesL cs
-  def edgesL : List T → Nat
-    | [] => 0
-    | c :: rest => 1 + edges c + edgesL rest
-end
-
 def countTwo (l : List Ev) : Nat := (l.filter fun e => match e with | .two _ => true | _ => false).length
 def countOne (l : List Ev) : Nat := (l.filter fun e => match e with | .one _ => true | _ => false).length
+def countK1 (l : List Ev) : Nat := (l.filter fun e => match e with | .k1 _ => true | _ => false).length
+def countK0 (l : List Ev) : Nat := (l.filter fun e => match e with | .k0 _ => true | _ => false).length
 
 theorem countTwo_append (a b : List Ev) : countTwo (a ++ b) = countTwo a + countTwo b := by
   simp [countTwo, List.filter_append]
 theorem countOne_append (a b : List Ev) : countOne (a ++ b) = countOne a + countOne b := by
   simp [countOne, List.filter_append]
+theorem countK1_append (a b : List Ev) : countK1 (a ++ b) = countK1 a + countK1 b := by
+  simp [countK1, List.filter_append]
+theorem countK0_append (a b : List Ev) : countK0 (a ++ b) = countK0 a + countK0 b := by
+  simp [countK0, List.filter_append]
+@[simp] theorem countTwo_nil : countTwo [] = 0 := rfl
+@[simp] theorem countTwo_two (v : Nat) : countTwo [Ev.two v] = 1 := rfl
+@[simp] theorem countTwo_one (v : Nat) : countTwo [Ev.one v] = 0 := rfl
+@[simp] theorem countK1_nil : countK1 [] = 0 := rfl
+@[simp] theorem countK0_nil : countK0 [] = 0 := rfl
+@[simp] theorem countK1_k1 (v : Nat) : countK1 [Ev.k1 v] = 1 := rfl
+@[simp] theorem countK1_k0 (v : Nat) : countK1 [Ev.k0 v] = 0 := rfl
+@[simp] theorem countK0_k1 (v : Nat) : countK0 [Ev.k1 v] = 0 := rfl
+@[simp] theorem countK0_k0 (v : Nat) : countK0 [Ev.k0 v] = 1 := rfl
+
+theorem countTwo_skip (b : Bool) (v : Nat) : countTwo (if b = true then [] else [Ev.one v]) = 0 := by
+  split <;> simp
 
 mutual
   /-- **every edge gets exactly one two-site step** -/
@@ -61,25 +55,128 @@ mutual
     | .node v cs => by
       rw [fwd, edges]; exact two_countL root v cs
   theorem two_countL (root : Bool) (v : Nat) : ∀ cs : List T, countTwo (fwdL root v cs) = edgesL cs
-    | [] => by simp [fwdL, edgesL, countTwo]
-    | c :: rest => by
-      simp only [fwdL, edgesL, countTwo_append]
+    | [] => by simp [fwdL, edgesL]
+    | (.node i []) :: rest => by
       have h1 := two_countL root v rest
-      have h2 : countTwo (match c with | .node _ [] => [] | .node _ (_ :: _) => fwd false c) = edges c := by
-        cases c with
-        | node i ks =>
-          cases ks with
-          | nil => simp [countTwo, edges, edgesL]
-          | cons k ks => exact two_count false _
-      have h3 : countTwo [Ev.two c.id] = 1 := by simp [countTwo]
-      have h4 : countTwo (if root && rest.isEmpty then [] else [Ev.one v]) = 0 := by
-        split <;> simp [countTwo]
-      rw [h1, h2, h3, h4]; ring
+      simp only [fwdL, edgesL, edges, countTwo_append, h1, countTwo_skip, T.id, countTwo_nil, countTwo_two]
+      try ring
+    | (.node i (k :: ks)) :: rest => by
+      have h1 := two_countL root v rest
+      have h2 := two_count false (.node i (k :: ks))
+      simp only [fwdL, edgesL, countTwo_append, h1, h2, countTwo_skip, T.id, countTwo_two]
+      ring
 end
 
--- a concrete tree: root 0 with children 1 (leaf) and 2 (with child 3)
+/-! ### the backward half sweep is the mirror image of the forward half sweep -/
+
+theorem skip_reverse (b : Bool) (v : Nat) :
+    (if b = true then ([] : List Ev) else [Ev.one v]).reverse = (if b = true then ([] : List Ev) else [Ev.one v]) := by
+  split <;> simp
+
+mutual
+  /-- **two-site sweep: `bwd = reverse fwd`, for every rooted tree** -/
+  theorem bwd_eq_reverse_fwd (root : Bool) : ∀ t : T, bwd root t = (fwd root t).reverse
+    | .node v cs => by
+      rw [fwd, bwd]; exact bwdL_eq_reverse_fwdL root v cs
+  theorem bwdL_eq_reverse_fwdL (root : Bool) (v : Nat) : ∀ cs : List T, bwdL root v cs = (fwdL root v cs).reverse
+    | [] => by simp [fwdL, bwdL]
+    | (.node i []) :: rest => by
+      have h1 := bwdL_eq_reverse_fwdL root v rest
+      simp only [fwdL, bwdL, List.reverse_append, List.reverse_cons, List.reverse_nil, List.nil_append, h1, skip_reverse,
+        List.append_assoc, List.append_nil]
+    | (.node i (k :: ks)) :: rest => by
+      have h1 := bwdL_eq_reverse_fwdL root v rest
+      have h2 := bwd_eq_reverse_fwd false (.node i (k :: ks))
+      simp only [fwdL, bwdL, List.reverse_append, List.reverse_cons, List.reverse_nil, List.nil_append, h1, h2, skip_reverse,
+        List.append_assoc]
+end
+
+mutual
+  /-- one-site sweep: reversing the forward sweep of a subtree gives (unless it is the root) the zero-site step on its
+      bond, followed by its backward sweep -/
+  theorem ps1F_reverse (root : Bool) : ∀ t : T,
+      (ps1F root t).reverse = (if root then [] else [Ev.k0 t.id]) ++ ps1B t
+    | .node v cs => by
+      have h := ps1FL_reverse cs
+      cases root <;> simp [ps1F, ps1B, T.id, h]
+  theorem ps1FL_reverse : ∀ cs : List T, (ps1FL cs).reverse = ps1BL cs
+    | [] => by simp [ps1FL, ps1BL]
+    | c :: rest => by
+      have h1 := ps1FL_reverse rest
+      have h2 := ps1F_reverse false c
+      simp only [ps1FL, ps1BL, List.reverse_append, h1, h2]
+      simp
+end
+
+/-- **one-site sweep: `backward = reverse forward`, for every rooted tree** -/
+theorem ps1B_eq_reverse_ps1F (t : T) : ps1B t = (ps1F true t).reverse := by
+  have := ps1F_reverse true t
+  simpa using this.symm
+
+mutual
+  /-- every node is propagated once, every bond once, per half sweep (one-site scheme) -/
+  theorem ps1F_counts (root : Bool) : ∀ t : T,
+      countK1 (ps1F root t) = edges t + 1 ∧ countK0 (ps1F root t) = edges t + (if root then 0 else 1)
+    | .node v cs => by
+      have h := ps1FL_counts cs
+      cases root
+      · simp only [ps1F, edges, countK1_append, countK0_append, h.1, h.2, Bool.false_eq_true, if_false,
+          countK1_k1, countK1_k0, countK0_k1, countK0_k0]
+        constructor <;> trivial
+      · simp [ps1F, edges, countK1_append, countK0_append, h.1, h.2]
+  theorem ps1FL_counts : ∀ cs : List T, countK1 (ps1FL cs) = edgesL cs ∧ countK0 (ps1FL cs) = edgesL cs
+    | [] => by simp [ps1FL, edgesL]
+    | c :: rest => by
+      have h1 := ps1FL_counts rest
+      have h2 := ps1F_counts false c
+      simp only [ps1FL, edgesL, countK1_append, countK0_append, h1.1, h1.2, h2.1, h2.2]
+      constructor <;> simp <;> ring
+end
+
+/-! ### symmetric composition ⇒ time reversibility
+
+Local flows as elements of a group `G` (bijections of the set of represented states, `Equiv.Perm State`, or
+invertible matrices in the linear case): `φ e` is the local propagation of event `e` over its time step, its inverse
+the same propagation with the time step negated (true for each exact local exponential `exp(∓i τ/2 H_eff)`; the
+Krylov kernel that computes it is C18's contract).  One full step composes the forward half sweep and then the
+backward half sweep.  Because the backward event list is the reverse of the forward one, the step with all local
+times negated is the inverse of the step: the integrator is symmetric (self-adjoint), hence of even order. -/
+
+/-- composition of the local flows of an event list, first event applied first (rightmost factor) -/
+def compose {G : Type} [Group G] (φ : Ev → G) (l : List Ev) : G := (l.reverse.map φ).prod
+
+theorem palindrome_inv {G : Type} [Group G] (l : List G) :
+    ((l ++ l.reverse).prod)⁻¹ = ((l.map (·⁻¹)) ++ (l.map (·⁻¹)).reverse).prod := by
+  rw [List.prod_inv_reverse]
+  simp [List.map_reverse]
+
+theorem compose_palindrome_inv {G : Type} [Group G] (φ : Ev → G) (l : List Ev) :
+    compose (fun e => (φ e)⁻¹) (l ++ l.reverse) = (compose φ (l ++ l.reverse))⁻¹ := by
+  unfold compose
+  have h := palindrome_inv (l.map φ)
+  simp only [List.reverse_append, List.reverse_reverse, List.map_append, List.map_reverse, List.map_map] at *
+  rw [h]
+  simp [Function.comp_def]
+
+/-- **one-site scheme: `S(−τ) = S(τ)⁻¹`** -/
+theorem ps1_step_time_reversible {G : Type} [Group G] (φ : Ev → G) (t : T) :
+    compose (fun e => (φ e)⁻¹) (ps1F true t ++ ps1B t) = (compose φ (ps1F true t ++ ps1B t))⁻¹ := by
+  rw [ps1B_eq_reverse_ps1F]; exact compose_palindrome_inv φ _
+
+/-- **two-site scheme: `S(−τ) = S(τ)⁻¹`** -/
+theorem ps2_step_time_reversible {G : Type} [Group G] (φ : Ev → G) (t : T) :
+    compose (fun e => (φ e)⁻¹) (fwd true t ++ bwd true t) = (compose φ (fwd true t ++ bwd true t))⁻¹ := by
+  rw [bwd_eq_reverse_fwd]; exact compose_palindrome_inv φ _
+
+/-- the property is not vacuous and not automatic: a backward sweep that keeps the children order (D29) differs -/
 private def ex : T := .node 0 [.node 1 [], .node 2 [.node 3 []]]
 example : fwd true ex = [.two 1, .one 0, .two 3, .one 2, .two 2] := by decide
 example : countTwo (fwd true ex) = 3 := by decide
+example : bwd true ex = [.two 2, .one 2, .two 3, .one 0, .two 1] := by decide
+example : ps1F true ex = [.k1 1, .k0 1, .k1 3, .k0 3, .k1 2, .k0 2, .k1 0] := by decide
+example : ps1B ex = [.k1 0, .k0 2, .k1 2, .k0 3, .k1 3, .k0 1, .k1 1] := by decide
+example : ps1F true (build [[1, 2], [], [3], []] 3 0) = ps1F true ex := by decide
+/-- the D29 order (children forward in the backward sweep) is NOT the mirror image -/
+example : ([.k1 0, .k0 1, .k1 1, .k0 2, .k1 2, .k0 3, .k1 3] : List Ev) ≠ (ps1F true ex).reverse := by decide
 
 end RenoVerif.TreeSweep
